@@ -9,7 +9,22 @@ CORE = "temporal_rs::builtins::core::"
 def rounding_signature(fx, f):
     """set of (increment, rounding mode) pairs of the IncrementRounder uses in f, read from the type-checked HIR"""
     out = set()
-    for n in hir_walk(f.hir):
+    # the function itself and the private helpers introduced after the baseline that it calls (an extracted helper takes
+    # the rounding call with it)
+    from .. import baseline
+    bodies, seen, todo = [], set(), [f]
+    while todo and len(bodies) < 8:
+        g = todo.pop()
+        if g is None or g.hir is None or g.path in seen:
+            continue
+        seen.add(g.path)
+        bodies.append(g.hir)
+        for n in hir_walk(g.hir):
+            if isinstance(n, dict) and n.get("k") in ("call", "mcall"):
+                p = str(n.get("resolved") or n.get("full") or n.get("fn") or "")
+                if p.startswith("temporal_rs::") and baseline.is_new(p):
+                    todo.append(fx["temporal_rs"].fn(p))
+    for n in (x for b in bodies for x in hir_walk(b)):
         if not (isinstance(n, dict) and n.get("k") == "mcall" and n.get("name") == "round"
                 and "IncrementRounder" in str(n.get("full") or n.get("resolved") or "")):
             continue
@@ -44,8 +59,9 @@ def check_offset_rounding(run, fx):
         run.anchor_missing(rule, "sites", "formatter or matcher not found")
         return
     sa, sb = rounding_signature(fx, a), rounding_signature(fx, b)
-    if not sa and not sb:
-        run.ok(rule, "formatter/matcher", "neither site uses the rounding kernel directly: not decided", a.loc, nontrivial=False)
+    if not sa or not sb or any("?" in (str(i), str(m)) for i, m in sa | sb):
+        run.ok(rule, "formatter/matcher", "the rounding kernel (or its increment / mode) is not recognisable at one of the two "
+                                          "sites (%s / %s): not decided" % (sorted(sa), sorted(sb)), a.loc, nontrivial=False)
         return
     run.check(sa == sb and len(sa) == 1, rule, "formatter/matcher", "both round with %s" % sorted(sa),
               "the formatter rounds offsets with %s but the matcher with %s (an empty set means the shared rounding kernel is not "
@@ -54,27 +70,63 @@ def check_offset_rounding(run, fx):
 
 def check_day_carry(run, fx):
     rule = "R6.disambiguation-day-carry"
-    run.rule(rule, "in DisambiguatePossibleEpochNanoseconds both the `earlier` and the `later` branch balance the date with "
-                   "day + (day carry of the shifted time): the carry already has the sign of the shift, so both branches add it")
+    run.rule(rule, "in DisambiguatePossibleEpochNanoseconds, for `earlier` and for `later` (no candidate): the date handed to "
+                   "BalanceISODate is day + (day carry of the shifted time), the carry entering with a plus sign - it already "
+                   "has the sign of the shift")
     f = fx["temporal_rs"].fn(CORE + "timezone::TimeZone::disambiguate_possible_epoch_nanos")
     if f is None:
         run.anchor_missing(rule, "disambiguate_possible_epoch_nanos", "not found")
         return
-    ops = []
-    for n in hir_walk(f.hir):
-        if isinstance(n, dict) and n.get("k") == "call" and str(n.get("fn", "")).endswith("IsoDate::balance") and len(n.get("args", [])) == 3:
-            a = n["args"][2]
-            if a.get("k") == "bin":
-                names = {x.get("name") for x in hir_walk(a) if isinstance(x, dict) and x.get("k") == "field"}
-                ops.append((a.get("op"), "day" in names, "0" in names))
-            else:
-                ops.append((a.get("k"), False, False))
-    if len(ops) < 2:
-        run.anchor_missing(rule, "balance-calls", "expected two IsoDate::balance calls (earlier / later), found %d" % len(ops), f.loc)
+    from ..terms import walk, show
+    D = "temporal_rs::options::Disambiguation::"
+    lst = next((p["name"] for p in f.params if p["ty"].startswith("alloc::vec::Vec<")), None)
+    dpi = next((i for i, p in enumerate(f.params) if p["ty"].endswith("options::Disambiguation")), None)
+    if lst is None or dpi is None:
+        run.anchor_missing(rule, "params", "candidate list / disambiguation parameters not found", f.loc)
         return
-    run.check(all(o == ("+", True, True) for o in ops), rule, "earlier/later", "%d branches: day + carry" % len(ops),
-              "the branches balance the date with %s; expected `day + <shifted time>.0` in both (a carry that is subtracted moves "
-              "the result by two days when the shift crosses midnight)" % [o[0] for o in ops], f.loc)
+
+    def signed_leaves(t, sign=1):
+        if isinstance(t, H.Sym) and t.what in ("bin+", "bin-"):
+            yield from signed_leaves(t.parts[0], sign)
+            yield from signed_leaves(t.parts[1], sign if t.what == "bin+" else -sign)
+        elif isinstance(t, H.Sym) and t.what == "un-":
+            yield from signed_leaves(t.parts[0], -sign)
+        elif isinstance(t, H.Sym) and t.what in ("cast", "into") or (isinstance(t, H.Sym) and t.what == "call" and
+                                                                 str(t.parts[0]).endswith(("From::from", "Into::into")) and t.parts[1]):
+            inner = t.parts[0] if t.what != "call" else t.parts[1][0]
+            yield from signed_leaves(inner, sign)
+        else:
+            yield sign, t
+    for d in ("Earlier", "Later"):
+        ev = H.Evaluator(fx)
+        ev.inline = lambda p: p.startswith("temporal_rs::error::")
+        args = [H.Sym("param", (p["name"],)) for p in f.params]
+        args[dpi] = H.V(D + d, ())
+        args[[p["name"] for p in f.params].index(lst)] = H.T(())
+        try:
+            paths = ev.paths(f, args, max_paths=200)
+        except H.Budget:
+            run.ok(rule, d, "too many paths: not decided", f.loc, nontrivial=False)
+            continue
+        carries = []
+        for dec, res, tr in paths:
+            if any(c.startswith("debug_assertion[") and ch is True for c, ch in dec):
+                continue
+            for c in tr:
+                if str(c.parts[0]).endswith("IsoDate::balance") and len(c.parts[1]) == 3:
+                    leaves = list(signed_leaves(c.parts[1][2]))
+                    carry = [(sg, t) for sg, t in leaves if any(isinstance(x, H.Sym) and x.what == "call" and
+                                                                 str(x.parts[0]).endswith("IsoTime::add") for x in walk(t))]
+                    day = [(sg, t) for sg, t in leaves if "day" in show(t) and (sg, t) not in carry]
+                    carries.append((tuple(sg for sg, _ in carry), tuple(sg for sg, _ in day), show(c.parts[1][2])[:90]))
+        if not carries:
+            run.ok(rule, d, "no BalanceISODate call with a recognisable day term on the no-candidate path: not decided", f.loc,
+                   nontrivial=False)
+            continue
+        bad = [c for c in carries if c[0] != (1,) or c[1] != (1,)]
+        run.check(not bad, rule, d, "day + carry of the shifted time",
+                  "with disambiguation %s the date is balanced with `%s`: expected day + <carry of the shifted time> (a carry that "
+                  "is subtracted moves the result by two days when the shift crosses midnight)" % (d, bad[0][2] if bad else ""), f.loc)
 
 
 COMPONENTS = {"hour", "minute", "second", "fraction", "nanosecond", "millisecond", "microsecond"}
